@@ -1077,3 +1077,41 @@ Proof.
   - vm_compute. intros [].
   - reflexivity.
 Qed.
+
+(* ================================================================ queues registered at construction *)
+Lemma r_reg_spec : forall fs f, r_reg fs f = if zmem f fs then Some [] else None.
+Proof.
+  induction fs as [|g fs IH]; intros f; cbn [r_reg zmem existsb]; [reflexivity|].
+  unfold upd. destruct (f =? g); [reflexivity|]. cbn [orb]. apply IH.
+Qed.
+
+(* whatever functions are registered at construction and whatever is registered lazily later, every function has its own
+   queue: receivers of f get exactly the f-packets that arrived while f's queue existed (from the start if registered at
+   construction), in arrival order; and only packets of function f *)
+Lemma router_fifo_registered : forall fs evs f,
+  let '(st', os) := r_run (r_reg fs) evs in
+  delivered f os ++ pending f st' = accepted f (zmem f fs) evs /\
+  (forall g p, In (g, Some p) os -> c_fn p = g).
+Proof.
+  intros fs evs f. pose proof (router_fifo_gen evs (r_reg fs) f) as H.
+  assert (Hp : pure (r_reg fs)).
+  { intros g q Hq. rewrite r_reg_spec in Hq. destruct (zmem g fs); [injection Hq as <-; constructor|discriminate]. }
+  pose proof (r_run_pure evs (r_reg fs) Hp) as [_ H2].
+  destruct (r_run (r_reg fs) evs) as [st' os]. cbn [fst snd] in *.
+  unfold pending at 2 in H. unfold opened in H. rewrite r_reg_spec in H.
+  split.
+  - rewrite H. destruct (zmem f fs); reflexivity.
+  - intros g p Hin. rewrite Forall_forall in H2. apply (H2 _ Hin).
+Qed.
+
+(* an operation on the queue of one function never changes the queue of another one *)
+Lemma r_step_other_function : forall st e f, rel f e = false -> fst (r_step st e) f = st f.
+Proof. intros st e f H. exact (proj1 (r_step_irrelevant f st e H)). Qed.
+
+(* one queue object shared by the functions registered at construction hands a packet of one function to a receiver of another *)
+Lemma shared_queue_refuted :
+  exists members evs g p, In (g, Some p) (sh_run members [] evs) /\ c_fn p <> g.
+Proof.
+  exists [2; 5], [Arrive (Ok (new_cpx 2 T_HOST T_STM32 [7])); Recv 5], 5, (new_cpx 2 T_HOST T_STM32 [7]).
+  split; [vm_compute; auto|vm_compute; discriminate].
+Qed.
